@@ -3,6 +3,9 @@ package main
 import (
 	"time"
 	"verif/internal/ax"
+	"verif/internal/ex"
+	"verif/internal/fx"
+	"verif/internal/hx"
 
 	"verif/internal/bx"
 	"verif/internal/harness"
@@ -28,7 +31,7 @@ func sweepTier(tier string, quick, thorough bx.Tier) bx.Tier {
 }
 
 var (
-	quickSweep    = bx.Tier{PN: 4, SK: 1, LASCII: 4, LBig: 3, LUTF8: 3, LRaw: 3, EmbedW: 1, EmbedPN: 3, TokL: 3, TokN: 6, SeedEmbW: 1, SeedJ: []int{0, 33}, Budget: 150 * time.Second}
+	quickSweep    = bx.Tier{PN: 4, SK: 1, LASCII: 4, LBig: 3, LUTF8: 3, LUTF8Big: 2, LRaw: 3, LRawBig: 2, EmbedW: 1, EmbedPN: 3, TokL: 3, TokN: 5, SeedEmbW: 1, SeedJ: []int{0, 33}, SeedEmbFirst: 600, Budget: 150 * time.Second}
 	thoroughSweep = bx.Tier{PN: 5, SK: 2, LASCII: 4, LUTF8: 3, LRaw: 3, EmbedW: 1, TokL: 3, TokN: 7, SeedEmbW: 1, Budget: 40 * time.Minute}
 )
 
@@ -65,6 +68,10 @@ func init() {
 	registry["C08"] = bx.C08Plan
 	registry["C09"] = bx.C09Plan
 	registry["C16"] = px.Plan
+	registry["C14"] = ex.Plan
+	registry["C13"] = hx.Plan("C13", hx.ModeResults)
+	registry["C20"] = hx.Plan("C20", hx.ModeMemory)
+	registry["C19"] = fx.Plan
 	registry["C15"] = ax.Plan
 	registry["C17"] = lx.Plan
 	registry["C12"] = bx.C12Plan
